@@ -26,6 +26,15 @@ func runC03(o *out, r *rng, thorough bool, rp string) {
 		viol := func(clause, sig, detail string) { local = append(local, violation{Clause: clause, Signature: sig, Detail: detail}) }
 		var next gpbft.PowerEntries
 		opt := instOpts{finale: true, skew: r.chance(35)}
+		if i%4 == 3 {
+			// byte-scale committees: total bit lengths next to the native integer widths first (48, 47, 49, 32, ...), then swept
+			hb := []int{48, 47, 49, 32, 33, 31, 62, 56, 40, 46, 50, 45, 44, 52, 60}
+			opt.skew = false
+			opt.huge = hb[(i/4)%len(hb)]
+			if i/4 >= len(hb) {
+				opt.huge = 20 + (i/4)%43
+			}
+		}
 		opt.supp = func(cur gpbft.PowerEntries) gpbft.SupplementalData {
 			next = sortEntries(mutateTable(r, cloneEntries(cur)))
 			if len(next) == 0 || r.chance(15) {
@@ -82,18 +91,18 @@ func checkDecision(d *instDriver, dec *gpbft.Justification, next gpbft.PowerEntr
 			bad("signer-range", fmt.Sprint(b))
 			return nil
 		}
-		if d.pt.ScaledPower[b] == 0 {
+		if d.scaled[b] == 0 {
 			bad("zero-power-signer", fmt.Sprint(b))
 		}
 		if !voters[d.pt.Entries[b].ID] {
 			bad("signer-did-not-vote", fmt.Sprintf("member %d listed but no DECIDE for %s was delivered from it", d.pt.Entries[b].ID, v))
 		}
-		pw += d.pt.ScaledPower[b]
+		pw += d.scaled[b]
 		mask = append(mask, int(b))
 		return nil
 	})
-	if !indepStrong(pw, d.pt.ScaledTotal) {
-		bad("no-strong-quorum", fmt.Sprintf("%d of %d", pw, d.pt.ScaledTotal))
+	if !indepStrong(pw, d.scaledTotal) {
+		bad("no-strong-quorum", fmt.Sprintf("%d of %d", pw, d.scaledTotal))
 	}
 	agg, err := d.backend.Aggregate(d.pt.Entries.PublicKeys())
 	must(err)
